@@ -18,7 +18,7 @@ CHECKS = {
                 note="As C01. 'Rate coefficients held fixed' = results of EvalRates/GetNumDens/GetMu/GetGamma have zero gradient. Particle density and k_B assumed non-zero."),
     "C03": dict(engine=E1, cat="translation_validation", sec="6 C03",
                 technique="symbolic execution with exactly-sized, bounds-checked memory objects; array-theory SMT queries (symbolic row/position) for CSR well-formedness; SMT equivalence of dense / odeint / CSR / cuSPARSE entries",
-                text="All memory accesses of Fex/Jac/EvalRates stay inside objects sized by the generated macros; the CSR arrays satisfy the well-formedness formula for a symbolic row and position; dense, odeint, sparse and cusparse Jacobians hold solver-equal terms at the same (row, col); the pattern file marks exactly the stored entries; a second evaluation of the sparse Jacobian on the same matrix after SUNMatZero (in the state the first left) yields the same index arrays and solver-equal values; the dense and sparse drivers (Naunet::Init / Reset, executed symbolically with recording stubs) keep a matrix of the declared shape and storage format (CSR) and build the linear solver with it; the cusparse driver keeps only block-CSR matrices of the declared shape that went through InitJac.",
+                text="All memory accesses of Fex/Jac/EvalRates stay inside objects sized by the generated macros; the CSR arrays satisfy the well-formedness formula for a symbolic row and position; dense, odeint, sparse and cusparse Jacobians hold solver-equal terms at the same (row, col); the pattern file marks exactly the stored entries; a second evaluation of the sparse Jacobian on the same matrix after SUNMatZero (in the state the first left) yields the same index arrays and solver-equal values; the dense and sparse drivers (Naunet::Init / Reset, executed symbolically with recording stubs) keep a matrix of the declared shape and storage format (CSR) and build the linear solver with it; the cusparse kernel gives every system of a batch its own block of NNZ values; the cusparse driver keeps only block-CSR matrices of the declared shape that went through InitJac.",
                 note="As C01. Offsets are concrete in generated code, so bounds are decided exactly per project."),
     "C04": dict(engine=E1, cat="translation_validation", sec="6 C04",
                 technique="symbolic execution of compiled Fex and GetElementAbund + SMT: element- and charge-weighted sums of ydot are identically zero for enumerated balanced networks, and the library's element totals are the count-weighted sums, with weights from a hand-written composition table",
@@ -66,7 +66,7 @@ CHECKS = {
                 note="Mass numbers and binding energies are read independently; physical constants as the project defines them; GetMantleDens opaque; constants inside libm calls are identified up to double rounding (the generator prints quotients such as E_b/A as one literal)."),
     "C12": dict(engine=E1, cat="translation_validation", sec="6 C12",
                 technique="the real Fortran->C translator's output is compiled (exact literals) and executed symbolically; z3 compares it, for all variable values, with the term an independent Fortran-semantics reader builds from the input text (libm uninterpreted); sat answers replayed natively with real libm",
-                text="For expressions derived from the translator's own grammar to depth 3 (+ - * / ** parentheses, exp/sqrt/log, integer/real/d-exponent literals, KROME variables, user @common variables, n(idx_X)) a deterministic family of powers whose exponent or base is an identifier followed by a signed number, and every rate expression of the bundled KROME networks: accepted expressions are value-equal to Fortran semantics and each n(idx_X) resolves to that species' abundance slot, or the expression is rejected at generation time.",
+                text="For expressions derived from the translator's own grammar to depth 3 (+ - * / ** parentheses, exp/sqrt/log, integer/real/d-exponent literals, KROME variables, user @common variables, n(idx_X), user arrays indexed by a species index) a deterministic family of powers whose exponent or base is an identifier followed by a signed number, and every rate expression of the bundled KROME networks: accepted expressions are value-equal to Fortran semantics and each n(idx_X) resolves to that species' abundance slot, or the expression is rejected at generation time.",
                 note="Chained ** (left-associated) and multi-character / electron idx names are recorded known findings. Fortran semantics per the standard; integer**negative integer and hand-written expressions cover the trigonometric / hyperbolic intrinsics and their inverses and the d-prefixed specific names."),
     "C13": dict(engine=E1, cat="translation_validation", sec="6 C13",
                 technique="differential symbolic execution: compiled EvalRates/Fex of the project with modifiers vs. the plain project vs. the modifier text (exact arithmetic reader), SMT equivalence per reaction and species; API path and init->TOML->render path compared",
@@ -83,7 +83,7 @@ CHECKS = {
     "C19": dict(engine=E1, cat="model_checking", sec="6 C19",
                 technique="bounded model checking of the compiled Solve/HandleError IR with a nondeterministic integrator stub (symbolic flags and partial times, merged states) + one SMT-discharged inductive step per recovery level (loop back edge cut); scripted-mock native replay",
                 text="Every fault sequence over the recovery ladder is covered by (base) Solve up to HandleError establishes the invariant, (step) from any invariant state one level either returns SUCCESS with exactly y0+dt, returns FAIL, or re-establishes the invariant, with every flag an arbitrary integer and every partial time an arbitrary real; plus end-to-end monolithic queries and concrete-flag/symbolic-time scripts through all five levels, on each of which a failing return implies that the entry state is what the error record prints; odeint Observer and Solve are decided on their compiled IR.",
-                note="Integrator contract is an assumption (state = exact solution at the returned time); pow/log10 are uninterpreted with round-trip and monotonicity axioms; 2-equation project (the ladder does not depend on the network); the return value of every scripted run must equal an independent model of the documented ladder; odeint: the observer handed to the integrator carries the current step budget in the first and in a second Solve call; cusparse Solve is outside the encoded set."),
+                note="Integrator contract is an assumption (state = exact solution at the returned time, kept in the integrator's own copy that CVodeInit / CVodeReInit take from the vector when they are called); pow/log10 are uninterpreted with round-trip and monotonicity axioms; 2-equation project (the ladder does not depend on the network); the return value of every scripted run must equal an independent model of the documented ladder; odeint: the observer handed to the integrator carries the current step budget in the first and in a second Solve call; cusparse Solve is outside the encoded set."),
 }
 
 NOT_APPLICABLE = {
